@@ -40,7 +40,7 @@ def plan(tier, seed, budget):
 
 
 def strategy():
-    return st.tuples(modelgen.models(_cfg()), optcommon.option_tuples(), st.lists(st.integers(0, 2**31 - 1), min_size=2, max_size=2))
+    return st.tuples(optcommon.option_tuples(), modelgen.models(_cfg()))
 
 
 def case_json(gm, o, seeds, feeds_list):
@@ -91,27 +91,15 @@ def check(model, o, feeds_list, overridable):
 
 
 def override_feeds(gm, seeds):
-    """Input tuples that also feed drawn values to the overridable initializer-inputs."""
-    out = []
-    inits = {i.name: i for i in gm.model.graph.initializer}
-    from onnx import numpy_helper
-
-    for s in seeds:
-        f = gm.feeds(s)
-        rng = np.random.default_rng(s ^ 0x5F5F)
-        for name in gm.overridable:
-            default = numpy_helper.to_array(inits[name])
-            f[name] = modelgen.make_array(int(rng.integers(0, 2**31 - 1)), default.dtype, default.shape,
-                                          ["smallint", "edge", "mixed"][int(rng.integers(0, 3))])
-        out.append(f)
-    return out
+    return [gm.feeds(s, override=True) for s in seeds]
 
 
 def run_shard(spec):
     col = Collector()
 
     def body(case):
-        gm, o, seeds = case
+        o, gm = case
+        seeds = gm.seeds()
         if wellformed.check_model(gm.model):
             col.skip("generator_invalid")
             return
